@@ -181,7 +181,7 @@ def run(ctx):
   case = {'inst': {'data': data, 'init': [R(0), R(1)], 'copt': island.opt_spec('sgd', 0.25), 'sopt': island.opt_spec('mom', 1, 0.5)}, 'h': h}
   cohorts = {1: [1, 2], 2: [2, 3, 4], 3: [1, 2]}    # cohort 3 = cohort 1 again (repeated participation)
   keys = {c: jax.random.split(jax.random.PRNGKey(40 + c), len(dss)) for c in cohorts}
-  per_alg = len(hists) if big else 40
+  per_alg = min(len(hists), 400) if big else 40   # (depth 4 gives ~3 000 histories; 400 per algorithm keeps thorough near 10 min)
   traces = []
   scratch_ckpt = os.path.join(ctx.scratch, 'ckpt')
   for name in ALGS:
